@@ -134,7 +134,7 @@ pub fn drive_schedule(log: &mut Log, im: &mut Impl, or: &mut Oracle, rng: &mut R
     let mut steps = 0usize;
     loop {
         steps += 1;
-        if steps > 200_000 { or.fail("schedule did not terminate (no progress)".into(), log.replay_block(), format!("{}:no-progress", d.prop)); break; }
+        if steps > 200_000 + wire.len() * 4 { or.fail("schedule did not terminate (no progress)".into(), log.replay_block(), format!("{}:no-progress", d.prop)); break; }
         if d.panicked || d.last_err.is_some() { break; }
         // if an end was reported for the active stream: advance (now or a little later)
         if d.last_end {
@@ -247,7 +247,7 @@ pub fn run_c02(ctx: &mut Ctx) {
          buffer sizes from 24; random legal schedules of parse(dest=Some(0..n)) / parse(dest=None) / consume_stream(k) / compress / consume_output(k) / set_stream, 5-60+ ops each; oracle compares delivered CONTENTS per stream with what was sent and checks end-of-stream exactness. \
          Non-trivial: some stream has content or noise is present; distinct by (records, buffer, schedule seed)");
     let mut rng = ctx.rng.fork();
-    for ci in 0..ctx.n(700, 14_000) {
+    for ci in 0..ctx.n(700, 3_000) {
         let big = ci % 23 == 7;
         let mc = 1 + rng.usize_below(500);
         let nl = rng.below(6);
@@ -260,7 +260,8 @@ pub fn run_c02(ctx: &mut Ctx) {
         let Some(mut d) = start_stream_parser(&mut log, &mut im, b, mc, case.id, case.role, case.flags, &wire[..la], "C02") else { or.fail("could not create the stream parser".into(), log.replay_block(), "C02:setup".into()); continue; };
         let pos = d.calls;
         let early = rng.chance(1, 5);
-        let max_dest = *rng.pick(&[1usize, 7, 64, 500]);
+        // 64 KiB records with 1- or 7-byte destinations only multiply the op count (and would exhaust the step cap of the schedule)
+        let max_dest = if big { *rng.pick(&[64usize, 500, 4096, 70_000]) } else { *rng.pick(&[1usize, 7, 64, 500]) };
         let flags = drive_schedule(&mut log, &mut im, &mut or, &mut rng, &mut d, &wire, pos, case.role, mode, early, max_dest);
         or.count(&format!("role={}", case.role)); or.count(match mode { Mode::Dest => "mode=dest", Mode::Internal => "mode=internal", Mode::Mixed => "mode=mixed" });
         if d.panicked { continue; }
